@@ -124,6 +124,7 @@ func (r *regEvents) take() map[string]int {
 
 type regOut struct {
 	peer int
+	gen  int // which connection of that peer (a reconnected SKI gets a new writer)
 	d    model.DatagramType
 }
 
@@ -136,13 +137,14 @@ type regLog struct {
 type regW struct {
 	peer int
 	log  *regLog
+	gen  int
 }
 
 func (w *regW) WriteShipMessageWithPayload(m []byte) {
 	var d model.Datagram
 	_ = json.Unmarshal(m, &d)
 	w.log.mu.Lock()
-	w.log.out = append(w.log.out, regOut{w.peer, d.Datagram})
+	w.log.out = append(w.log.out, regOut{w.peer, w.gen, d.Datagram})
 	w.log.mu.Unlock()
 }
 
@@ -168,6 +170,8 @@ type regWorld struct {
 	out     []regOut // written during the current step
 	panicky string
 	td      *tdExt // composed teardown world (TestTeardown) or nil
+	gen     map[int]int  // current connection of a peer
+	variant int          // optional parts of the removal entries of the current op (bit 1: no entityType, 2: no device part, 4: description)
 	late    map[int]bool // peers whose discovery reply has not arrived yet (op "discover p")
 	broken  map[int]bool // peers whose connection cannot be written to (set up with a nil writer): every send to them fails
 }
@@ -219,15 +223,31 @@ func regParseEnt(s string) []uint {
 }
 
 func regDiscovery(dev string, state *model.NetworkManagementStateChangeType, ents []string) *model.NodeManagementDetailedDiscoveryDataType {
+	return regDiscoveryV(dev, state, ents, 0)
+}
+
+// variant (removal entries only): bit 1 = without entityType (as real devices announce a removal), bit 2 = entityAddress
+// without the device part, bit 4 = with a description text
+func regDiscoveryV(dev string, state *model.NetworkManagementStateChangeType, ents []string, variant int) *model.NodeManagementDetailedDiscoveryDataType {
 	etype := map[string]model.EntityTypeType{"0": model.EntityTypeTypeDeviceInformation, "1": model.EntityTypeTypeEVSE, "2": model.EntityTypeTypeEV, "1.1": model.EntityTypeTypeEV}
 	dd := &model.NodeManagementDetailedDiscoveryDataType{
 		DeviceInformation: &model.NodeManagementDetailedDiscoveryDeviceInformationType{Description: &model.NetworkManagementDeviceDescriptionDataType{DeviceAddress: &model.DeviceAddressType{Device: util.Ptr(model.AddressDeviceType(dev))}}},
 	}
 	for _, e := range ents {
 		et := etype[e]
-		dd.EntityInformation = append(dd.EntityInformation, model.NodeManagementDetailedDiscoveryEntityInformationType{Description: &model.NetworkManagementEntityDescriptionDataType{
-			EntityAddress: &model.EntityAddressType{Device: util.Ptr(model.AddressDeviceType(dev)), Entity: spine.NewAddressEntityType(regParseEnt(e))}, EntityType: &et, LastStateChange: state}})
+		desc := &model.NetworkManagementEntityDescriptionDataType{
+			EntityAddress: &model.EntityAddressType{Device: util.Ptr(model.AddressDeviceType(dev)), Entity: spine.NewAddressEntityType(regParseEnt(e))}, EntityType: &et, LastStateChange: state}
+		dd.EntityInformation = append(dd.EntityInformation, model.NodeManagementDetailedDiscoveryEntityInformationType{Description: desc})
 		if state != nil && *state == model.NetworkManagementStateChangeTypeRemoved {
+			if variant&1 != 0 {
+				desc.EntityType = nil
+			}
+			if variant&2 != 0 {
+				desc.EntityAddress.Device = nil
+			}
+			if variant&4 != 0 {
+				desc.Description = util.Ptr(model.DescriptionType("going away"))
+			}
 			continue
 		}
 		for _, f := range regRemoteFeats {
@@ -256,7 +276,7 @@ func newRegWorldTd(npeers int, ev *regEvents, base int, td bool, late, broken ma
 	if broken == nil {
 		broken = map[int]bool{}
 	}
-	w := &regWorld{late: late, broken: broken, npeers: npeers, rds: map[int]api.DeviceRemoteInterface{}, log: &regLog{}, ctr: map[int]uint64{}, alive: map[int]bool{},
+	w := &regWorld{gen: map[int]int{}, late: late, broken: broken, npeers: npeers, rds: map[int]api.DeviceRemoteInterface{}, log: &regLog{}, ctr: map[int]uint64{}, alive: map[int]bool{},
 		gone: map[int]map[string]bool{}, ev: ev, base: base}
 	l := spine.NewDeviceLocal("b", "m", "s", "c", "HEMS", model.DeviceTypeTypeEnergyManagementSystem, model.NetworkManagementFeatureSetTypeSmart)
 	e1 := spine.NewEntityLocal(l, model.EntityTypeTypeCEM, spine.NewAddressEntityType([]uint{1}), time.Second*4)
@@ -280,7 +300,7 @@ func newRegWorldTd(npeers int, ev *regEvents, base int, td bool, late, broken ma
 		if broken[p] {
 			l.SetupRemoteDevice(regSki(p), nil) // "outgoing interface implementation not set": every send to this peer fails
 		} else {
-			l.SetupRemoteDevice(regSki(p), &regW{p, w.log})
+			l.SetupRemoteDevice(regSki(p), &regW{p, w.log, 0})
 		}
 		w.rds[p] = l.RemoteDeviceForSki(regSki(p))
 		w.ctr[p] = 100
@@ -628,6 +648,14 @@ func runRegHistoryTd(r *h.Report, d *h.Driver, ev *regEvents, base int, ops []st
 				break
 			}
 		}
+		variant := 0
+		for i, t := range f {
+			if len(t) > 1 && t[0] == 'v' && t[1] >= '0' && t[1] <= '9' {
+				variant, _ = strconv.Atoi(t[1:])
+				f = append(append([]string{}, f[:i]...), f[i+1:]...)
+				break
+			}
+		}
 		tearLine := strings.Join(f, " ")
 		f, sd, cdSub := regDecor(f)
 		atoi := func(i int) int { n, _ := strconv.Atoi(f[i]); return n }
@@ -647,6 +675,11 @@ func runRegHistoryTd(r *h.Report, d *h.Driver, ev *regEvents, base int, ops []st
 		}
 		if f[0] == "discover" && !w.late[requester] || f[0] == "addent" && !w.gone[requester][f[2]] {
 			continue
+		}
+		if f[0] == "reconnect" {
+			if q := atoi(1); q > np || w.alive[q] || w.broken[q] {
+				continue
+			}
 		}
 		preS, preB := w.snapshot()
 		w.out = nil
@@ -847,7 +880,7 @@ func runRegHistoryTd(r *h.Report, d *h.Driver, ev *regEvents, base int, ops []st
 				if f[0] == "dropent" {
 					removed := model.NetworkManagementStateChangeTypeRemoved
 					cmd.Filter = []model.FilterType{*model.NewFilterTypePartial()}
-					cmd.NodeManagementDetailedDiscoveryData = regDiscovery(regDev(p), &removed, listed)
+					cmd.NodeManagementDetailedDiscoveryData = regDiscoveryV(regDev(p), &removed, listed, variant)
 				} else {
 					var keep []string
 					for _, e := range regRemoteEnts {
@@ -947,6 +980,42 @@ func runRegHistoryTd(r *h.Report, d *h.Driver, ev *regEvents, base int, ops []st
 			if kind == "" {
 				kind = f[0]
 			}
+		case "reconnect":
+			// the removed SKI connects again: a new writer, counters restart, a fresh discovery
+			p := atoi(1)
+			w.gen[p]++
+			w.l.SetupRemoteDevice(regSki(p), &regW{p, w.log, w.gen[p]})
+			w.rds[p] = w.l.RemoteDeviceForSki(regSki(p))
+			w.ctr[p], w.alive[p], w.gone[p] = 100, true, map[string]bool{}
+			if w.td != nil {
+				w.td.used[p] = map[uint64]bool{}
+			}
+			w.discover(p)
+			w.settle()
+			w.out = append(w.out, w.log.take()...)
+			impl, kind = "done", "reconnect"
+			// SPEC (C10): nothing of the old connection carries over to the new one
+			postS, postB := w.snapshot()
+			for _, e := range append(append([]regEntry{}, postS...), postB...) {
+				if e.peer == p {
+					r.SpecFail("C10/state-of-old-connection-carried-over", done, fmt.Sprintf("after %s the entry %s is registered for the new connection", op, e))
+				}
+			}
+			if w.td != nil {
+				if bits := w.td.chas(p); bits != "0 0 0 0 1" {
+					r.SpecFail("C10/state-of-old-connection-carried-over", done, fmt.Sprintf("after %s the local client features' bookkeeping for the peer is %q, expected only node management's fresh subscription", op, bits))
+				}
+			}
+			subCall := false
+			for _, o := range w.out {
+				if o.peer == p && o.gen == w.gen[p] && len(o.d.Payload.Cmd) > 0 && o.d.Payload.Cmd[0].NodeManagementSubscriptionRequestCall != nil {
+					subCall = true
+				}
+			}
+			if !subCall {
+				r.SpecFail("C10/peer-not-served-after-its-discovery", done, fmt.Sprintf("after %s no node-management subscription call on the new connection", op))
+			}
+			w.ev.take()
 		case "discover":
 			p := atoi(1)
 			w.discover(p)
@@ -1136,6 +1205,10 @@ func runRegHistoryTd(r *h.Report, d *h.Driver, ev *regEvents, base int, ops []st
 				panic("bad op " + op)
 			}
 			impl, kind = w.td.step(r, done, f, preS, preB)
+			if impl == "skip" {
+				done = done[:len(done)-1]
+				continue
+			}
 			postS, postB := w.snapshot()
 			if len(regDiff(preS, postS))+len(regDiff(postS, preS))+len(regDiff(preB, postB))+len(regDiff(postB, preB)) > 0 {
 				r.SpecFail("C10/registry-changed-by-"+f[0], done, fmt.Sprintf("%s changed the registries: %s | %s -> %s | %s", op, regShow(preS), regShow(preB), regShow(postS), regShow(postB)))
@@ -1143,7 +1216,7 @@ func runRegHistoryTd(r *h.Report, d *h.Driver, ev *regEvents, base int, ops []st
 		}
 		// SPEC (C10): no further datagram is written to a removed connection
 		for _, o := range w.out {
-			if !w.alive[o.peer] && f[0] != "drop" && f[0] != "fire" {
+			if (!w.alive[o.peer] || o.gen != w.gen[o.peer]) && f[0] != "drop" && f[0] != "fire" {
 				r.SpecFail("C10/write-to-removed-connection", done, fmt.Sprintf("during %s a datagram was written to the removed connection of peer %d", op, o.peer))
 			}
 		}
@@ -1259,13 +1332,14 @@ func regFaultOp(rng regRng, p int) string {
 	case 0, 1, 2, 3:
 		return fmt.Sprintf("drop %d", p)
 	case 4, 5, 6:
-		return fmt.Sprintf("dropent %d %s", p, []string{"1", "1.1", "2"}[rng.Intn(3)])
+		// the optional parts of a removal entry vary: with / without entityType (real devices omit it), device part, description
+		return fmt.Sprintf("dropent %d %s v%d", p, []string{"1", "1.1", "2"}[rng.Intn(3)], rng.Intn(8))
 	case 7:
-		return fmt.Sprintf("dropent %d %s", p, []string{"0,1", "1,0,1.1", "0,2,1.1", "2,0", "0", "1.1,1", "0,1,1.1,2"}[rng.Intn(7)])
+		return fmt.Sprintf("dropent %d %s v%d", p, []string{"0,1", "1,0,1.1", "0,2,1.1", "2,0", "0", "1.1,1", "0,1,1.1,2"}[rng.Intn(7)], rng.Intn(8))
 	case 8:
 		return fmt.Sprintf("full %d %s", p, []string{"0,2", "0,1,1.1", "1", "2,1.1", "0,1"}[rng.Intn(5)])
 	}
-	return fmt.Sprintf("dropent %d %s", p, []string{"1,2", "1.1,2", "1,1.1"}[rng.Intn(3)])
+	return fmt.Sprintf("dropent %d %s v%d", p, []string{"1,2", "1.1,2", "1,1.1"}[rng.Intn(3)], rng.Intn(8))
 }
 
 // regDecorate appends address decorations to a request: most requests name the devices as a well-behaved peer does;
@@ -1317,6 +1391,9 @@ func genRegHistory(rng regRng, n, np int, faults bool) []string {
 		}
 		if rng.Intn(25) == 0 {
 			ops = append(ops, fmt.Sprintf("addent %d %s", 1+rng.Intn(np), []string{"1", "1.1", "2"}[rng.Intn(3)]))
+		}
+		if rng.Intn(15) == 0 {
+			ops = append(ops, fmt.Sprintf("reconnect %d", 1+rng.Intn(np))) // skipped while that peer is connected
 		}
 		p := 1 + rng.Intn(np)
 		t := regTup{ents[rng.Intn(len(ents))], 1 + rng.Intn(4), ents[rng.Intn(len(ents))], 1 + rng.Intn(3), []int{1, 1, 1, 2, 2, 4, 0}[rng.Intn(7)]}
@@ -1483,6 +1560,12 @@ func TestRegistry(t *testing.T) {
 		run([]string{"peers 2", "sub 1 1 1 1 1 1", "sub 1 1.1 1 1 1 1", "sub 1 2 1 2 1 1", "bind 1 1 1 1 1 1", "sub 2 1 1 1 1 1", "bind 2 1.1 1 2 1 1", l, "subs 1", "binds 1", "subs 2", "binds 2",
 			"notify 1 1", "notify 2 1", "sub 1 2 1 1 1 1", "sub 1 1 1 1 1 1", "addent 1 1", "sub 1 1 1 1 1 1", "subs 1"})
 	}
+	// removal entries as real devices send them: without entityType, without the device part, with a description
+	for v := 0; v < 8; v++ {
+		run([]string{"peers 2", "sub 1 1 1 1 1 1", "bind 1 1.1 1 1 1 1", "sub 2 1 1 1 1 1", fmt.Sprintf("dropent 1 1,1.1 v%d", v), "subs 1", "binds 1", "bind 2 1 1 1 1 1", "binds 2", "notify 1 1"})
+	}
+	// a removed SKI connects again
+	run([]string{"peers 2", "sub 1 1 1 1 1 1", "bind 1 1 1 1 1 1", "dropent 1 2", "drop 1", "reconnect 1", "subs 1", "binds 1", "sub 1 2 1 1 1 1", "sub 1 1 1 1 1 1", "bind 1 1 1 1 1 1", "notify 1 1", "write 1 1 1 1 1", "drop 2", "reconnect 2", "sub 2 1 1 1 1 1", "notify 1 1"})
 	// a peer whose discovery reply arrives after another connection was removed
 	run([]string{"peers 2 late:2", "sub 1 1 1 1 1 1", "drop 1", "discover 2", "sub 2 1 1 1 1 1", "subs 2", "notify 1 1", "dropent 2 1", "addent 2 1", "sub 2 1 1 1 1 1"})
 	run([]string{"peers 3 late:2,3", "sub 1 1 1 1 1 1", "drop 1", "discover 2", "drop 2", "discover 3", "sub 3 1 1 1 1 1", "subs 3"})
